@@ -16,6 +16,8 @@
 //    only the aliased end was constrained the source gets that constraint; when only the source was
 //    constrained the aliased end may stay unconstrained.  "Exactly" is meant: group `near` links constraints
 //    whose bounds differ by a few ulps .. 1e-9 only and probes acceptance between and next to those bounds.
+//    Group `flags` links constraints with the SAME bound value included by one and excluded by the other: they
+//    are different constraints, the shared one excludes that bound.
 //  * refusals (double alias, cycle of any length incl. self alias) must raise and leave every observable of
 //    every live object unchanged.
 #include "vrt.h"
@@ -565,60 +567,34 @@ const vector<string>& nsPool()
 // flag, or clearly different.  Open/closed flags are free (no two members share a bound on a near side).  Also
 // fills the case-local probes (every bound, its two neighbours, the midpoints between neighbouring bounds, i.e.
 // values inside one member and outside the other) and values (bounds, neighbours, interior points).
-void makeFamily(World& w)
+// six pairwise different bounds around `base`: 0, a few ulps, 1e-15 .. 9e-13, sometimes 2e-12 or 1e-9 away
+vector<double> perturbedBounds(vrt::Rng& r, double base, size_t N)
 {
-  vrt::Rng& r = w.c.rng;
-  static const double lowBases[] = { 0., 0., 1e-9, -3e-8, 2.5e-7, 0.75, -1.5, 0.1 };
-  static const double upBases[] = { 0., 0., -1e-9, 3e-8, -2.5e-7, 3.25, 4.5, 0.3 };
   static const double absDeltas[] = { 1e-15, 1e-14, 1e-13, 3e-13, 5e-13, 9e-13 };
-  const size_t N = 6;
-  int shape = static_cast<int>(r.below(5)); // 0,1: lower side near; 2,3: upper side near; 4: both
-  bool nearL = shape <= 1 || shape == 4, nearH = shape >= 2;
-  double bL, bH;
-  if (nearL && nearH)
+  vector<double> out;
+  for (int tries = 0; out.size() < N && tries < 200; ++tries)
   {
-    if (r.chance(0.25)) { bL = -3e-8; bH = 3e-8; }
-    else { bL = lowBases[r.below(7)]; bH = r.chance(0.5) ? 3.25 : 4.5; }
+    double b = base;
+    double k = r.unit();
+    bool up = r.chance(0.5);
+    if (k < 0.12) {}
+    else if (k < 0.45)
+    {
+      static const int steps[] = { 1, 2, 3, 7 };
+      int s = steps[r.below(4)];
+      for (int q = 0; q < s; ++q) b = std::nextafter(b, up ? INF : -INF);
+    }
+    else if (k < 0.88) b = base + (up ? 1. : -1.) * absDeltas[r.below(6)];
+    else b = base + (up ? 1. : -1.) * (r.chance(0.5) ? 2e-12 : 1e-9);
+    if (find(out.begin(), out.end(), b) == out.end()) out.push_back(b);
   }
-  else if (nearL) { bL = lowBases[r.below(8)]; bH = 4.25; }
-  else { bH = upBases[r.below(8)]; bL = -4.25; }
-  auto perturbed = [&](double base) {
-      vector<double> out;
-      for (int tries = 0; out.size() < N && tries < 200; ++tries)
-      {
-        double b = base;
-        double k = r.unit();
-        bool up = r.chance(0.5);
-        if (k < 0.12) {}
-        else if (k < 0.45)
-        {
-          static const int steps[] = { 1, 2, 3, 7 };
-          int s = steps[r.below(4)];
-          for (int q = 0; q < s; ++q) b = std::nextafter(b, up ? INF : -INF);
-        }
-        else if (k < 0.88) b = base + (up ? 1. : -1.) * absDeltas[r.below(6)];
-        else b = base + (up ? 1. : -1.) * (r.chance(0.5) ? 2e-12 : 1e-9);
-        if (find(out.begin(), out.end(), b) == out.end()) out.push_back(b);
-      }
-      return out;
-    };
-  auto farSide = [&](double base, double dir) {
-      vector<double> out;
-      int kind = static_cast<int>(r.below(3)); // one common bound, clearly different bounds, no bound
-      for (size_t i = 0; i < N; ++i) out.push_back(kind == 0 ? base : kind == 1 ? base + dir * 0.5 * static_cast<double>(i) : dir * INF);
-      return out;
-    };
-  vector<double> los = nearL ? perturbed(bL) : farSide(bL, -1.), his = nearH ? perturbed(bH) : farSide(bH, 1.);
-  bool farFlag = r.chance(0.5);
-  w.family.clear();
-  for (size_t i = 0; i < N && i < los.size() && i < his.size(); ++i)
-  {
-    Itv c = { true, los[i], his[i], nearL ? r.chance(0.5) : (std::isfinite(los[i]) && farFlag), nearH ? r.chance(0.5) : (std::isfinite(his[i]) && farFlag) };
-    // a far side made of clearly different bounds may have any flags
-    if (!nearL && std::isfinite(los[i]) && los[0] != los[N - 1]) c.il = r.chance(0.5);
-    if (!nearH && std::isfinite(his[i]) && his[0] != his[N - 1]) c.iu = r.chance(0.5);
-    w.family.push_back(c);
-  }
+  return out;
+}
+
+// case-local probes (every finite bound, its two neighbouring doubles, the midpoints between neighbouring bounds,
+// base +-1e-11, +-0.125, three interior points) and values (bounds, neighbours, midpoints, interior points)
+void fillCaseGrids(const vector<double>& los, const vector<double>& his, double bL, double bH)
+{
   vector<double>& xp = xProbe();
   vector<double>& xv = xValue();
   for (int side = 0; side < 2; ++side)
@@ -640,6 +616,81 @@ void makeFamily(World& w)
   xp.erase(unique(xp.begin(), xp.end()), xp.end());
   sort(xv.begin(), xv.end());
   xv.erase(unique(xv.begin(), xv.end()), xv.end());
+}
+
+void makeFamily(World& w)
+{
+  vrt::Rng& r = w.c.rng;
+  static const double lowBases[] = { 0., 0., 1e-9, -3e-8, 2.5e-7, 0.75, -1.5, 0.1 };
+  static const double upBases[] = { 0., 0., -1e-9, 3e-8, -2.5e-7, 3.25, 4.5, 0.3 };
+  const size_t N = 6;
+  int shape = static_cast<int>(r.below(5)); // 0,1: lower side near; 2,3: upper side near; 4: both
+  bool nearL = shape <= 1 || shape == 4, nearH = shape >= 2;
+  double bL, bH;
+  if (nearL && nearH)
+  {
+    if (r.chance(0.25)) { bL = -3e-8; bH = 3e-8; }
+    else { bL = lowBases[r.below(7)]; bH = r.chance(0.5) ? 3.25 : 4.5; }
+  }
+  else if (nearL) { bL = lowBases[r.below(8)]; bH = 4.25; }
+  else { bH = upBases[r.below(8)]; bL = -4.25; }
+  auto perturbed = [&](double base) { return perturbedBounds(r, base, N); };
+  auto farSide = [&](double base, double dir) {
+      vector<double> out;
+      int kind = static_cast<int>(r.below(3)); // one common bound, clearly different bounds, no bound
+      for (size_t i = 0; i < N; ++i) out.push_back(kind == 0 ? base : kind == 1 ? base + dir * 0.5 * static_cast<double>(i) : dir * INF);
+      return out;
+    };
+  vector<double> los = nearL ? perturbed(bL) : farSide(bL, -1.), his = nearH ? perturbed(bH) : farSide(bH, 1.);
+  bool farFlag = r.chance(0.5);
+  w.family.clear();
+  for (size_t i = 0; i < N && i < los.size() && i < his.size(); ++i)
+  {
+    Itv c = { true, los[i], his[i], nearL ? r.chance(0.5) : (std::isfinite(los[i]) && farFlag), nearH ? r.chance(0.5) : (std::isfinite(his[i]) && farFlag) };
+    // a far side made of clearly different bounds may have any flags
+    if (!nearL && std::isfinite(los[i]) && los[0] != los[N - 1]) c.il = r.chance(0.5);
+    if (!nearH && std::isfinite(his[i]) && his[0] != his[N - 1]) c.iu = r.chance(0.5);
+    w.family.push_back(c);
+  }
+  fillCaseGrids(los, his, bL, bH);
+}
+
+// ---- group `flags`: a family of six intervals that share a bound VALUE on one or both sides and differ there only
+// in the open/closed flag (drawn per member, so identical members occur too).  The other side is again a shared
+// bound (flags free), one common bound with one common flag, clearly different bounds (flags free), unbounded, or
+// almost equal bounds (as in group `near`).  The intersection of two members with an equal bound includes that
+// bound only if both do (interI); every audit probes each bound and its two neighbouring doubles, and the update
+// values include the bounds themselves.
+void makeFlagFamily(World& w)
+{
+  vrt::Rng& r = w.c.rng;
+  static const double bases[][2] = { { 0., 1. }, { -1.5, 4.5 }, { 0.75, 3.25 }, { -3e-8, 3e-8 }, { 0., 4.25 }, { -4.25, 0. }, { 1e-9, 2. }, { 0.5, 3.5 }, { 0.1, 0.3 } };
+  const size_t N = 6;
+  const size_t bi = r.below(sizeof(bases) / sizeof(bases[0]));
+  const double bL = bases[bi][0], bH = bases[bi][1];
+  int shape = static_cast<int>(r.below(4)); // 0: lower side shared, 1: upper side shared, 2,3: both
+  // side modes: 0 shared bound / flags free, 1 common bound / common flag, 2 clearly different / flags free,
+  //             3 unbounded, 4 almost equal / flags free
+  int modeL = (shape == 0 || shape >= 2) ? 0 : 1 + static_cast<int>(r.below(4));
+  int modeH = (shape >= 1) ? 0 : 1 + static_cast<int>(r.below(4));
+  auto side = [&](int mode, double base, double dir) {
+      if (mode == 4) return perturbedBounds(r, base, N);
+      vector<double> out;
+      for (size_t i = 0; i < N; ++i) out.push_back(mode <= 1 ? base : mode == 2 ? base + dir * 0.5 * static_cast<double>(i) : dir * INF);
+      return out;
+    };
+  vector<double> los = side(modeL, bL, -1.), his = side(modeH, bH, 1.);
+  bool commonL = r.chance(0.5), commonH = r.chance(0.5);
+  w.family.clear();
+  for (size_t i = 0; i < N && i < los.size() && i < his.size(); ++i)
+  {
+    bool fl = r.chance(0.5), fh = r.chance(0.5);
+    Itv c = { true, los[i], his[i],
+              modeL == 3 ? false : modeL == 1 ? commonL : fl,
+              modeH == 3 ? false : modeH == 1 ? commonH : fh };
+    w.family.push_back(c);
+  }
+  fillCaseGrids(los, his, bL, bH);
 }
 
 Obj* makeObject(World& w, int n, const string& ns, bool constrained)
@@ -664,7 +715,8 @@ Obj* makeObject(World& w, int n, const string& ns, bool constrained)
     vector<double> cand;
     if (w.near)
     {
-      // members of the family, each at most once per object (their bounds are pairwise different); values mostly
+      // members of the family, each at most once per object (group near: their bounds are pairwise different;
+      // group flags: they differ in the open/closed flags of a shared bound, or not at all); values mostly
       // inside every member so that most alias requests are inside the quantifier
       c = r.chance(0.12) ? NONE : w.family[fam[static_cast<size_t>(i) % fam.size()]];
       bool common = r.chance(0.8);
@@ -733,7 +785,10 @@ bool opAlias(World& w, Obj& o, int p1, int p2)
   }
   bool c1 = m.con[u1].has, c2 = m.con[u2].has;
   bool nearPair = c1 && c2 && (nearBound(m.con[u1].lo, m.con[u2].lo) || nearBound(m.con[u1].hi, m.con[u2].hi));
-  string kind = c1 && c2 ? (sameI(m.con[u1], m.con[u2]) ? "both-same" : sameDesc ? "both-same-description" : nearPair ? "both-near" : "both") : c1 ? "source-only" : c2 ? "aliased-only" : "none";
+  // the same bound value on some side, included by one constraint and excluded by the other (only group `flags`
+  // builds such pairs): different constraints, the intersection excludes that bound
+  bool flagPair = c1 && c2 && ((m.con[u1].lo == m.con[u2].lo && m.con[u1].il != m.con[u2].il) || (m.con[u1].hi == m.con[u2].hi && m.con[u1].iu != m.con[u2].iu));
+  string kind = c1 && c2 ? (sameI(m.con[u1], m.con[u2]) ? "both-same" : sameDesc ? "both-same-description" : flagPair ? "both-equal-bound-other-flag" : nearPair ? "both-near" : "both") : c1 ? "source-only" : c2 ? "aliased-only" : "none";
   vrt::cover("alias:valid:cons=" + kind + ":srcdepth" + str(min(3, m.depthBelow(m.root(p1), p1))) + ":subtree" + str(min<size_t>(3, m.desc(p2).size())) + ":" + nsKey(m));
   if (!vrt::expect(oc.returned(), "alias.accepts-valid", "cons=" + kind, [&] { return w.history() + " => " + oc.text() + " ; model " + m.dump(); })) return false;
   Expect ex;
@@ -1301,19 +1356,22 @@ bool genBulk(World& w, Obj& o)
 }
 
 // ---------------------------------------------------------------- random histories
-void runHistory(vrt::Case& c, bool withBulk, bool nearMode = false)
+// fam: 0 = constraints from the fixed pool, 1 = group `near` (makeFamily), 2 = group `flags` (makeFlagFamily)
+void runHistory(vrt::Case& c, bool withBulk, int fam = 0)
 {
+  const bool nearMode = fam != 0;
   vrt::Rng& r = c.rng;
   World w(c);
   int n = static_cast<int>(nearMode ? r.range(2, 4) : r.range(2, 6));
   string ns = r.chance(0.5) ? "" : nsPool()[1 + r.below(nsPool().size() - 1)];
   bool constrained = nearMode || r.chance(0.75);
   size_t len = static_cast<size_t>(nearMode ? r.range(2, 10) : withBulk ? r.range(1, 12) : r.range(3, 25));
-  vrt::describe(string(nearMode ? "history+near" : withBulk ? "history+bulk" : "history") + ":n" + str(n) + (ns.empty() ? ":ns0" : ":ns1"), "random history of length " + str(len) + " on " + str(n) + " parameters, namespace '" + ns + "'");
+  vrt::describe(string(fam == 2 ? "history+flags" : nearMode ? "history+near" : withBulk ? "history+bulk" : "history") + ":n" + str(n) + (ns.empty() ? ":ns0" : ":ns1"), "random history of length " + str(len) + " on " + str(n) + " parameters, namespace '" + ns + "'");
   if (nearMode)
   {
     w.near = true;
-    makeFamily(w);
+    if (fam == 2) makeFlagFamily(w);
+    else makeFamily(w);
   }
   makeObject(w, n, ns, constrained);
   if (!auditAll(w, nullptr, "construct", nullptr)) return;
@@ -1363,7 +1421,8 @@ void runHistory(vrt::Case& c, bool withBulk, bool nearMode = false)
 
 void caseHistory(vrt::Case& c) { runHistory(c, false); }
 void caseBulk(vrt::Case& c) { runHistory(c, true); }
-void caseNear(vrt::Case& c) { runHistory(c, false, true); }
+void caseNear(vrt::Case& c) { runHistory(c, false, 1); }
+void caseFlags(vrt::Case& c) { runHistory(c, false, 2); }
 
 // ---------------------------------------------------------------- enumerated alias sequences
 // index -> (n, three alias requests (p1,p2) over n parameters); then a fixed tail that drives every route,
@@ -1543,6 +1602,7 @@ int main(int argc, char** argv)
     { "history", 40000, 500000, caseHistory, 600, false },
     { "bulk", 12000, 100000, caseBulk, 90, false },
     { "near", 4000, 40000, caseNear, 600, false },
+    { "flags", 4000, 40000, caseFlags, 600, false },
     { "enum", enumCount(4), enumCount(5), caseEnum, 600, true },
     { "known-witness", 1, 1, caseKnownWitness, 300, false },
   };
@@ -1557,11 +1617,14 @@ int main(int argc, char** argv)
       "renaming, unalias of every link, assignment in both directions, self assignment, destruction). near: histories (2..10 operations after one or two valid links) on objects whose "
       "constraints come from a family of six intervals with pairwise different but almost equal lower and/or upper bounds (0, a few ulps, 1e-15 .. 9e-13, sometimes 2e-12 or 1e-9 around "
       "bases 0, +-1e-9 .. 2.5e-7 and values of order 1; the other side common, clearly different or unbounded); every audit also probes acceptance at every bound, its two neighbouring "
-      "doubles and the midpoints between neighbouring bounds. A class key = (operation, structural situation: validity / refusal reason, which "
+      "doubles and the midpoints between neighbouring bounds. flags: the same histories on objects whose constraints come from a family of six intervals that share a bound value on one or "
+      "both sides and differ there only in the open/closed flag (other side: shared too, one common bound and flag, clearly different, unbounded or almost equal); two members with an equal "
+      "bound and different flags are different constraints whose intersection excludes that bound (class cons=both-equal-bound-other-flag); probes and update values include every bound "
+      "and its two neighbouring doubles. A class key = (operation, structural situation: validity / refusal reason, which "
       "ends are constrained, depth of the source, size of the aliased subtree, route, independent or aliased target, links carried by a copy, namespace present).";
   meta.assumptions = {
     "values inside the constraints of the updated parameter and of everything aliased to it; alias requests only when both current values lie inside the intersection",
-    "interval pool with pairwise distinct bounds (equal bounds with different open/closed flags are C01's subject; group near: bounds of one side are pairwise different too, but only by a few ulps .. 1e-9), no precision on parameters",
+    "interval pool with pairwise distinct bounds (group near: bounds of one side are pairwise different too, but only by a few ulps .. 1e-9; group flags: equal bounds with different open/closed flags, intersected as C01 states: a common bound is included only if both include it), no precision on parameters",
     "two different constraints whose getDescription() strings are equal (almost equal bounds of order 1, other side identical) are different constraints: after aliasing both ends accept exactly the intersection (class cons=both-same-description)",
     "an aliased parameter may take its source's value at alias time or only at the source's next change; an update that does not change its target may or may not re-synchronise the aliases; both accepted",
     "getAliases may map an aliased parameter to any of its (direct or indirect) sources; names returned by getAlias/getAliases/getFrom are compared modulo the namespace; getFrom is asked with and without namespace",
